@@ -44,21 +44,41 @@ pub(crate) fn named(attr: &StructAttr, ts_name: Expr, fields: &FieldsNamed) -> R
             let flattened = #flattened;
             let flattened = flattened.trim();
             // Only remove the parentheses if the first one is closed by the last one:
-            // `(A | B) & (C | D)` has to stay as it is.
+            // `(A | B) & (C | D)` has to stay as it is. Parentheses (and quotes) inside doc
+            // comments and parentheses inside string literals are not part of the type.
             let mut depth = 0usize;
+            let mut first_closed_at = None;
             let mut in_string = false;
-            let wrapped = flattened.starts_with('(')
-                && flattened.ends_with(')')
-                && flattened.char_indices().all(|(i, c)| {
+            let mut in_comment = false;
+            let mut chars = flattened.char_indices().peekable();
+            while let Some((i, c)) = chars.next() {
+                if in_comment {
+                    if c == '*' && matches!(chars.peek(), Some((_, '/'))) {
+                        chars.next();
+                        in_comment = false;
+                    }
+                } else if in_string {
+                    in_string = c != '"';
+                } else {
                     match c {
-                        '"' => in_string = !in_string,
-                        '(' if !in_string => depth += 1,
-                        ')' if !in_string => depth = depth.saturating_sub(1),
+                        '/' if matches!(chars.peek(), Some((_, '*'))) => {
+                            chars.next();
+                            in_comment = true;
+                        }
+                        '"' => in_string = true,
+                        '(' => depth += 1,
+                        ')' => {
+                            depth = depth.saturating_sub(1);
+                            if depth == 0 {
+                                first_closed_at = Some(i);
+                                break;
+                            }
+                        }
                         _ => {}
                     }
-                    depth > 0 || i == flattened.len() - 1
-                });
-            if wrapped {
+                }
+            }
+            if flattened.starts_with('(') && first_closed_at == Some(flattened.len() - 1) {
                 flattened[1..flattened.len() - 1].trim().to_owned()
             } else {
                 flattened.to_owned()
